@@ -100,8 +100,9 @@ class HierDictDocument(DictDocument):
                                                body_class, doc, self.validator)
 
             elif doc is None:
-                # {"method": null}: the message is there, its members are not
-                ctx.in_object = [None] * len(body_class._type_info)
+                # {"method": null}: the message is there, its members are not.
+                # (the message of a bare method is the argument itself)
+                ctx.in_object = None
 
             else:
                 ctx.in_object = self._doc_to_object(ctx, body_class, doc,
